@@ -72,7 +72,7 @@ def run(ctx):
             sites.append(r)
     rejects = [r for r in rows if len(r) >= 3 and r[1] == "REJECT"]
     n_eq = n_diag = n_panic = n_vals = n_orc_ok = n_hyp_bad = 0
-    n_unwitnessed = 0
+    n_unwitnessed = n_written = n_elab = 0
     distinct, streams, samples = set(), {}, []
     for r in sites:
         sid, site, kind, payload = r[0], r[2], r[3], r[4]
@@ -85,7 +85,7 @@ def run(ctx):
             continue
         l1, orc, nvals, hyp = m[0], m[1], int(m[2] or 0), m[3]
         n_vals += nvals
-        pl = {"id": sid, "site": site[:1500], "real": kind + " " + payload[:1500], "src": srcs.get(prog)}
+        pl = {"id": sid, "site": site[:1500], "written_patterns": (r[5][:1500] if len(r) > 5 else "none"), "real": kind + " " + payload[:1500], "src": srcs.get(prog)}
         # non-trivial: at least two arms, at least one constructor/literal/tuple pattern
         if re.search(r"\((pprim|pconstr|ptuple)", site):
             distinct.add(site + kind)
@@ -114,6 +114,14 @@ def run(ctx):
             n_panic += 1
             if not l1.startswith("eq-panic"):
                 ctx.broken_ties.append(("L1: real compiler panics, model does not", f"{sid}: {l1} {payload[:200]}"))
+        n_written += "source=written" in hyp
+        me = re.search(r"elab-diff=(\d+)", hyp)
+        if me and int(me.group(1)) > 0:
+            n_elab += 1
+            if not orc.startswith("fail:"):
+                # the Core agrees with the written patterns although the typed patterns do not: not a
+                # behavioural failure, but the TAST the tie is fed from no longer means the source
+                ctx.broken_ties.append(("typed patterns differ in meaning from the written patterns", f"{sid}: {hyp} site={site[:300]}"))
         if "conf-fail=0 " not in hyp or "fresh=true" not in hyp or "leavesOK=true" not in hyp:
             n_hyp_bad += 1
             ctx.broken_ties.append(("a hypothesis of compileRows_correct does not hold on a real input", f"{sid}: {hyp}"))
@@ -173,6 +181,8 @@ def run(ctx):
         "l1_model_core_equal": n_eq, "int_nonexhaustive_rejected(both)": n_diag,
         "rejected_sites_without_unmatched_value_in_bound": n_unwitnessed,
         "real_compiler_panics(owned by C04)": n_panic,
+        "sites_whose_source_side_is_the_written_pattern(AST)": n_written,
+        "sites_where_typed_and_written_patterns_disagree_on_some_value": n_elab,
         "oracle_sites_ok": n_orc_ok, "impl_oracle_failures": len(ctx.violations),
         "model_diffs": sum(1 for n, _ in ctx.broken_ties if n.startswith("L1")),
         "theorem_hypotheses_violated_on_real_inputs": n_hyp_bad,
@@ -184,6 +194,7 @@ def run(ctx):
         "Sem (Model/Sem.lean) is the meaning of Core; `missing` is the builtin that fails at that point",
         "the decision tree is judged at Core level against firstMatch; its ANF/Go lowering is judged by stage-wise agreement with the Core of the same program (Sem / Go.Sem) on the runnable small-matrix programs",
         "values are enumerated from the type definition up to depth 3 with a per-site cap (integers/strings: the literals of the site plus fresh ones)",
+        "the source side of the first-match oracle is the pattern AS WRITTEN (real ast::File, struct sub-patterns bound by field name, constructors resolved by name against the value's type) for every site whose function lines up with the surface syntax; other sites (impl methods of programs with derived impls) fall back to the typed pattern",
         "marker bodies replace the arm bodies (compile_rows does not inspect bodies except for their type annotation)",
     ]
     tb = ["Lean 4 kernel", "axioms: " + ",".join(ctx.proof["axioms"] or ["none"]),
